@@ -2,6 +2,10 @@ package ipfsproxy
 
 import (
 	"bytes"
+	"context"
+
+	"github.com/ipfs/ipfs-cluster/adder/adderutils"
+	"github.com/ipfs/ipfs-cluster/api"
 
 	cid "github.com/ipfs/go-cid"
 	"io"
@@ -16,7 +20,9 @@ func vrfAddRequest(rawQuery string, multipartBody bool) *http.Request {
 	if multipartBody {
 		mw := multipart.NewWriter(&buf)
 		fw, _ := mw.CreateFormFile("file", "a.txt")
-		fw.Write([]byte("hello"))
+		// 200 one-byte chunks (the request asks for chunker=size-1): more than one
+		// level of links, so the two DAG layouts give different roots
+		fw.Write(bytes.Repeat([]byte("hello"), 40))
 		mw.Close()
 		r.Header.Set("Content-Type", mw.FormDataContentType())
 	}
@@ -35,3 +41,26 @@ func vrfAddRan(s *vrfSvc) bool {
 }
 
 func vrfAddedRoot(s *vrfSvc) cid.Cid { return s.addedRoot }
+
+// the root the real adder produces for the same upload when it is given the
+// requested layout directly (differential oracle for the native run)
+func vrfExpectedAddRoot(layout string) cid.Cid {
+	saved := vrfTheSvc
+	defer func() { vrfTheSvc = saved }()
+	s2 := &vrfSvc{}
+	p2 := vrfNewProxy(s2)
+	params := api.DefaultAddParams()
+	params.Layout = layout
+	params.Chunker = "size-1"
+	r := vrfAddRequest("", true)
+	reader, err := r.MultipartReader()
+	if err != nil {
+		panic(err)
+	}
+	w := &vrfWriter{hdr: http.Header{}}
+	root, err := adderutils.AddMultipartHTTPHandler(context.Background(), p2.rpcClient, params, reader, w, nil)
+	if err != nil {
+		panic(err)
+	}
+	return root
+}
